@@ -10,14 +10,14 @@ EXH = "exhaustive small-world enumeration + Hypothesis-generated cases"
 CHECKS = {
     "C01": (
         EXH + " against a definitional reference model (combinations + order-isomorphism); histories re-using memoised pattern objects",
-        "Every (pattern, permutation) pair below a length bound is enumerated and every entry point compared, as a list, with an independent oracle; above the bound Hypothesis plants occurrences, colours and re-uses memoised pattern objects across targets, including lazily consumed searches that overlap in time and patterns given in one-shot containers; thorough adds atheris campaigns with the oracle inside the target. Exploration is the right level: the property is universally quantified over an infinite domain; complete small worlds plus generated larger ones reach the off-by-one and memo faults the pruned backtracking search can have.",
+        "Every (pattern, permutation) pair below a length bound is enumerated and every entry point compared, as a list, with an independent oracle; above the bound Hypothesis plants occurrences, colours and re-uses memoised pattern objects across targets, including lazily consumed searches that overlap in time, searches aborted part-way by an injected asynchronous exception and patterns given in one-shot containers; thorough adds atheris campaigns with the oracle inside the target. Exploration is the right level: the property is universally quantified over an infinite domain; complete small worlds plus generated larger ones reach the off-by-one and memo faults the pruned backtracking search can have.",
         "Trusted: pv/oracle.py. Bounded: exhaustive |p|<=4,|t|<=6 quick (|p|<=5,|t|<=7 thorough); generated up to |p|<=6,|t|<=12.",
         "DESIGN.md 4/C01",
     ),
     "C02": (
         "model-based stateful testing: generated query histories (op-list strategy and Hypothesis RuleBasedStateMachine) interpreted against a brute-force model of Av(basis)",
-        "Histories of count / of_length / iterators / up_to_length / first / membership / is_subclass / clear_cache / re-creation are run side by side with ref.av (filter of S_n) and compared after every step; iterators are drained at the end. Exploration: the state space of the level cache with in-place compaction is only reachable through histories, which the generator produces and shrinks as one value.",
-        "Trusted: reference (mesh) containment. Bounded: n<=7 classical (8 thorough), n<=5 mesh; <=12 ops per history. Open findings F4 (first on mesh classes), F5 (is_subclass with mesh bases) are classified by exact defect models.",
+        "Histories of count / of_length / iterators / up_to_length / first / membership / is_subclass / clear_cache / re-creation / requests aborted part-way by an injected asynchronous exception are run side by side with ref.av (filter of S_n) and compared after every step; iterators are drained at the end. Exploration: the state space of the level cache with in-place compaction is only reachable through histories, which the generator produces and shrinks as one value.",
+        "Trusted: reference (mesh) containment. Bounded: n<=7 classical (8 thorough), n<=5 mesh; <=12 ops per history; long_levels with an incremental oracle: every level up to 10 (12 thorough) for Catalan-sized classes, 9 (11) otherwise. Open findings F4 (first on mesh classes), F5 (is_subclass with mesh bases) are classified by exact defect models.",
         "DESIGN.md 4/C02",
     ),
     "C03": (
@@ -69,8 +69,8 @@ CHECKS = {
         "DESIGN.md 4/C11",
     ),
     "C12": (
-        "exhaustive enumeration of all permutations up to the bound + generated longer ones; oracle = device simulation with real containers, characterisations by reference containment, family definitions, Greene's theorem",
-        "One pass of each device, sortable predicates, pattern characterisations, sort counts, the whole Simion-Schmidt map per length (bijection, fixed minima, inverse, rejection), named families from their definitions.",
+        "exhaustive enumeration of all permutations up to the bound + generated longer ones + generated disturbed histories (fault injection by sys.settrace, owned thread schedules); oracle = device simulation with real containers, characterisations by reference containment, family definitions, Greene's theorem",
+        "One pass of each device, sortable predicates, pattern characterisations, sort counts, the whole Simion-Schmidt map per length (bijection, fixed minima, inverse, rejection), named families from their definitions; disturbed histories: every operator again after an earlier call was aborted at a generated line (injected asynchronous exception) and while 2-4 calls overlap under an owned schedule.",
         "Trusted: oracle devices; characterisations are cross-checked against the devices in the self-test before use. 'smooth' = docstring definition.",
         "DESIGN.md 4/C12",
     ),
@@ -82,19 +82,19 @@ CHECKS = {
     ),
     "C07": (
         "schedule-owning thread harness (sys.settrace preemption at every line of permset.py, cooperative replacement of the class lock) driven by Hypothesis-generated and PCT-style schedules; sequential brute-force model as oracle; real-thread stress run",
-        "Each case is (basis, 2-4 thread programs, schedule); exactly one thread runs at a time so the run is a pure function of code and case and shrinks/replays as one value; every query result is compared with the sequential answer, exceptions and deadlocks are violations. Exploration: schedules are sampled, not enumerated.",
+        "Each case is (basis, 2-4 thread programs, schedule); every lock permset.py holds or creates (class attributes, class-level dicts, multiprocessing/threading Lock/RLock made lazily) is made cooperative, whatever the locking scheme; exactly one thread runs at a time so the run is a pure function of code and case and shrinks/replays as one value; every query result is compared with the sequential answer, exceptions and deadlocks are violations. Exploration: schedules are sampled, not enumerated.",
         "Preemption granularity = one source line of permset.py; library code called from there runs atomically. A foreign blocking primitive introduced by a change shows up as a harness stall (exit 2), not as a violation.",
         "DESIGN.md 3.5, 4/C07",
     ),
     "C13": (
         "Hypothesis-generated bases in every container form / order / symmetry + exhaustive small bases + verdict-call histories; oracle = structure theorems with membership decided by reference avoidance of the published bases of the ten classes; enumeration consistency",
-        "Verdicts of is_finite / is_polynomial / is_insertion_encodable(_rightmost/_maximum), the Av wrappers and the CLI are compared with the theorems on list, tuple, set, frozenset, Basis, generator, one-shot iterator, dict-keys and reversed containers under all eight symmetries; finite classes must be empty beyond the Erdos-Szekeres bound, infinite ones never, non-polynomial ones at least Fibonacci-sized.",
+        "Verdicts of is_finite / is_polynomial / is_insertion_encodable(_rightmost/_maximum), the Av wrappers and the CLI are compared with the theorems on list, tuple, set, frozenset, Basis, generator, one-shot iterator, dict-keys and reversed containers under all eight symmetries; finite classes must be empty beyond the Erdos-Szekeres bound, infinite ones never, non-polynomial ones at least Fibonacci-sized; 'earlier calls' include a call aborted part-way by an injected asynchronous exception and calls still running in other threads (owned schedule) on fresh long basis elements.",
         "Published bases are cross-checked against split-point definitions on S_<=6 in the self-test. Enumeration for lengths 7-9 trusts Av (C02), cross-checked up to 6.",
         "DESIGN.md 4/C13",
     ),
     "C14": (
         "exhaustive enumeration of all pin words / (word, permutation) pairs below a length bound + Hypothesis-generated longer ones; oracle = order-theoretic decoder, true containment, own Theorem 3.13 matcher",
-        "Decoding, quadrants, factors, the three tables, the SP<->M translations for every word up to length 5 (6 thorough); containment reflection for every (w, sigma) with |sigma| <= |w| <= 4 and generated sub-permutations / near misses up to length 8.",
+        "Decoding, quadrants, factors, the three tables, the SP<->M translations for every word up to length 5 (6 thorough); containment reflection for every (w, sigma) with |sigma| <= |w| <= 4 and generated sub-permutations / near misses up to length 8; strict pin words read off long words with periodic direction tails (overlapping occurrences) against the quadrant-based definition.",
         "Own matcher = truth is asserted first (harness error otherwise). Open finding F8 (touching direction-led factor) is classified by the matcher without the gap condition.",
         "DESIGN.md 4/C14",
     ),
@@ -112,7 +112,7 @@ CHECKS = {
     ),
     "C17": (
         "Hypothesis-generated finite input sets in three representations; oracle = the three guarantees (sound up to n, complete up to m, cell-wise irredundant) evaluated with reference mesh containment; differential check of the algorithm's private containment tests; auto_bisc end-to-end on generated properties",
-        "bisc output for arbitrary finite sets A (not only classes) is checked against A itself with the reference model; clean-up bases must hit every tested bad permutation and round-trip; auto_bisc's description must coincide with the property on all permutations of length <= 8.",
+        "bisc output for arbitrary finite sets A (not only classes) is checked against A itself with the reference model; clean-up bases must hit every tested bad permutation and round-trip; the driver's sanity checks patterns_suffice_for_good/_for_bad are tested two-sided with intruders placed only at the last length; auto_bisc's description must coincide with the property on all permutations of length <= 8.",
         "n <= 5, m <= 4; auto_bisc under a time budget (hit = inconclusive).",
         "DESIGN.md 4/C17",
     ),
@@ -124,7 +124,7 @@ CHECKS = {
     ),
     "C20": (
         "model-based stateful testing with fault injection (op-list strategy + Hypothesis RuleBasedStateMachine) over a scratch directory; exhaustive check of all shipped data against the family definitions; automaton database histories with own language-equivalence BFS",
-        "Write/rewrite/read/delete/truncate/empty/garbage histories against a dict model of the directory; every shipped (family, length) is a duplicate-free partition of S_k with good = the family by the C12 oracle definitions; loaded automata are language-equivalent to fresh ones after any store/create/load/forget history.",
+        "Write/rewrite/read/delete/truncate/empty/garbage histories against a dict model of the directory, including user files named like the shipped data sets (never written / written then deleted); every shipped (family, length) is a duplicate-free partition of S_k with good = the family by the C12 oracle definitions; loaded automata are language-equivalent to fresh ones after any store/create/load/forget history.",
         "Fault model = missing, truncated, emptied, non-JSON bytes. Two emptied len9 files are asserted to be reported invalid and skipped.",
         "DESIGN.md 4/C20",
     ),
